@@ -22,6 +22,7 @@ struct Req
     int start_delay = 0;     // steps before starting
     int hold = 0;            // steps the access is held
     bool copy_wrapper = false;    // reads: copy the wrapper, release the two copies at different times
+    bool keep_op_state = false;   // the operation state outlives the access (destroyed at the end of the case): legal, and must not withhold later accesses
 };
 struct Case
 {
@@ -45,6 +46,7 @@ static Case decode(Tape& t)
         r.start_delay = static_cast<int>(t.below(4));
         r.hold = static_cast<int>(t.below(4));
         r.copy_wrapper = !r.write && t.chance(1, 3);
+        r.keep_op_state = t.chance(1, 3);
         c.reqs.push_back(r);
     }
     c.destroy_mutex_after = t.chance(1, 2) ? static_cast<int>(t.below(6)) : -1;
@@ -62,7 +64,7 @@ static std::string describe(tape_t const& tape)
         auto const& r = c.reqs[i];
         os << (i ? ", " : "") << "\"" << (r.write ? "W" : "R") << " on T" << r.thread << " "
            << (r.action == 0 ? "start" : r.action == 1 ? "drop_unstarted" : "start+copy_of_sender") << " delay" << r.start_delay << " hold" << r.hold
-           << (r.copy_wrapper ? " copy_wrapper" : "") << "\"";
+           << (r.copy_wrapper ? " copy_wrapper" : "") << (r.keep_op_state ? " op_state_kept_alive" : "") << "\"";
     }
     os << "], \"destroy_mutex_after_steps\": " << c.destroy_mutex_after << ", \"schedule_tape_from\": " << t.pos << "}";
     return os.str();
@@ -169,6 +171,9 @@ static Outcome run(tape_t const& tape)
     std::vector<int> issued(n, 0);
     auto mtx = std::make_unique<mutex_t>(0);
     int all_issued = 0;
+    // operation states that outlive their access (destroyed after the schedule has run)
+    std::vector<std::shared_ptr<void>> kept_op_states;
+    long long kept = 0;
 
     s.add([&] {
         for (std::size_t i = 0; i < n; ++i)
@@ -203,7 +208,10 @@ static Outcome run(tape_t const& tape)
                 {
                     std::optional<rw_t> slot;
                     int got = 0;
-                    auto os = ex::connect(std::move(*wsend[i]), Recv<rw_t>{&W, static_cast<int>(i), &slot, &got});
+                    using OS = decltype(ex::connect(std::move(*wsend[i]), Recv<rw_t>{&W, static_cast<int>(i), &slot, &got}));
+                    std::shared_ptr<OS> osp(new OS(ex::connect(std::move(*wsend[i]), Recv<rw_t>{&W, static_cast<int>(i), &slot, &got})));
+                    if (r.keep_op_state) { kept_op_states.push_back(osp); ++kept; }
+                    auto& os = *osp;
                     wsend[i].reset();
                     ex::start(os);
                     spin_until(got);
@@ -223,7 +231,10 @@ static Outcome run(tape_t const& tape)
                     int got = 0, got2 = 0;
                     std::optional<decltype(std::declval<mutex_t&>().read())> copy;
                     if (r.action == 2) copy.emplace(*rsend[i]);
-                    auto os = ex::connect(std::move(*rsend[i]), Recv<rd_t>{&W, static_cast<int>(i), &slot, &got});
+                    using OS = decltype(ex::connect(std::move(*rsend[i]), Recv<rd_t>{&W, static_cast<int>(i), &slot, &got}));
+                    std::shared_ptr<OS> osp(new OS(ex::connect(std::move(*rsend[i]), Recv<rd_t>{&W, static_cast<int>(i), &slot, &got})));
+                    if (r.keep_op_state) { kept_op_states.push_back(osp); ++kept; }
+                    auto& os = *osp;
                     rsend[i].reset();
                     ex::start(os);
                     if (copy)
@@ -273,6 +284,7 @@ static Outcome run(tape_t const& tape)
     };
     s.run(t);
     mtx.reset();
+    kept_op_states.clear();
     Outcome out;
     if (W.fail.empty())
         for (std::size_t i = 0; i < n; ++i)
@@ -288,6 +300,7 @@ static Outcome run(tape_t const& tape)
     out.nontrivial = ngroups >= 2 && (multi_read || drop) && s.switches > c.nth;
     if (multi_read) out.tags.push_back("has:read_group>=2");
     if (drop) out.tags.push_back("has:unstarted_drop");
+    if (kept) out.tags.push_back("has:op_state_outlives_access");
     if (c.destroy_mutex_after >= 0) out.tags.push_back("has:mutex_destroyed_early");
     out.tags.push_back("groups:" + std::to_string(ngroups));
     return out;
